@@ -127,7 +127,7 @@ fn args(rk: &str, vals: &str) -> Option<Args> {
         return None;
     }
     let vals = list(vals);
-    let is_int = matches!(kind, b'i' | b'r' | b'g' | b'u' | b'd');
+    let is_int = matches!(kind, b'i' | b'r' | b'g' | b'u' | b'd' | b'e');
     Some(Args {
         kind,
         ints: if is_int { vals.iter().map(|v| v.parse().expect("int arg")).collect() } else { Vec::new() },
